@@ -20,7 +20,8 @@ def build(rng, facts, name):
     if rng.random() < 0.2:
         b.kclear("k")
         for v in rand_values(rng, rng.choice([1, 5, 20]), -2, 2): b.kadd("k", v)
-    if rng.random() < 0.25 and kp in ("sparse", "pag") and kn in ("sparse", "pag"):
+    ends = rng.random() < 0.25 and kp in ("sparse", "pag") and kn in ("sparse", "pag")
+    if ends:
         # the first and last buckets the mapping can address (their bounds lie outside [min, max] indexable)
         fx = facts[spec]
         for v in rng.sample([nextafter(fx["min"], True), -nextafter(fx["min"], True), fx["min"] * 1.0000001, fx["max"], -fx["max"], nextafter(fx["max"], False)], 3): b.kadd("k", v)
@@ -37,7 +38,8 @@ def build(rng, facts, name):
     # the allocation-free streaming writer produces bytes that unmarshal to the same message
     b.emit("kstream sb k", "ok"); b.emit("kobs k", same0); b.emit("kpunmarshal P3 sb", "ok"); b.emit("kpobs P3", ("same", jp))
     # rebuild with any store kind
-    for kind in rng.sample(TARGETS, 3):
+    # (content reaching both ends of the index range is rebuilt into hash-map and bounded stores only: an array over the whole range is a memory test, not a protobuf one)
+    for kind in rng.sample([t for t in TARGETS if not ends or t not in ("dense", "pag")], 3):
         for P in ("P", "P3"):
             b.emit("kfromproto r %s %s" % (P, kind), "ok"); b.emit("kobs r", expect_decoded(j0, kind, loose=arbitrary))
     # streaming the same sketch again, into another writer, gives the same message (the writer holds no state between calls; the bytes themselves may order hash-map bins differently)
